@@ -648,6 +648,12 @@ class World:
             fin = cont_node
             cont_real = self.real[fin.uid]
         if raised is not None:
+            if isinstance(raised, ValueError) and "no modules collection" in str(raised) and outside_any_collection(recv_real):
+                # domain: the model places every receiver in the collection; a handle into a tree that belongs to no collection
+                # (a stubs module a merge left outside) cannot resolve the aliases the operation has to re-target, and Griffe
+                # says so with its documented ValueError.  The history ends here as out-of-domain (the tree may be half-updated).
+                self.rec.count("steps_on_receivers_outside_any_collection_out_of_domain")
+                raise MOutOfDomain("receiver lives in a tree that belongs to no collection")
             detached_alias = node.kind == "alias" and getattr(value, "_parent", None) is None
             if (isinstance(raised, AttributeError) and "'NoneType' object has no attribute 'path'" in str(raised) and detached_alias
                     and api == "set_member" and old is not None and old.kind != "alias" and info.old_backrefs):
@@ -1604,6 +1610,19 @@ def gen_history(rng: random.Random, rec, length: int) -> tuple[list, dict]:  # n
             rec.count("histories_meeting_" + k)
     rec.maximum("longest_history_applied_steps", out["applied"])
     return ops, out
+
+
+def outside_any_collection(obj) -> bool:  # noqa: ANN001
+    """The object's tree has no modules collection at its root (read from the real objects, not from the model)."""
+    cur = obj
+    for _ in range(100):
+        if getattr(cur, "is_collection", False):
+            return False
+        parent = getattr(cur, "parent", None)
+        if parent is None:
+            return getattr(cur, "_modules_collection", None) is None
+        cur = parent
+    return False
 
 
 # ==================================================================================================
